@@ -260,7 +260,10 @@ fn run_flow(ctx: &mut Ctx, r: &mut Rng) {
     }
     for (i, tracked, children, has_grad) in plain {
         ctx.count("gradient_plainness_checked", 1);
-        if tracked || children > 0 || has_grad {
+        if children > 0 {
+            ctx.count("gradients_with_recorded_children_seen_by_hook(info)", 1);
+        }
+        if tracked || has_grad {
             ctx.violation(
                 "C09|flow|gradient-not-plain",
                 format!("the gradient stored for n{} is tracked={} children={} holds-gradient={}\nprogram: {}", i, tracked, children, has_grad, p.pretty()),
